@@ -128,7 +128,7 @@ def load_prop(pid):
     return hist.HistProp(load_module(pid))
 
 
-class CaseTimeout(Exception):
+class CaseTimeout(BaseException):      # not an Exception: the oracles' `except Exception` around library calls must not swallow it
     pass
 
 
